@@ -2,11 +2,15 @@ package c15
 
 import (
 	"bytes"
+	"encoding/json"
 	"fmt"
 	"io"
 	"math"
+	"os"
+	"path/filepath"
 	"sort"
 	"strconv"
+	"sync"
 	"testing"
 
 	"pgregory.net/rapid"
@@ -107,8 +111,44 @@ func validOpName(name []byte) bool {
 const (
 	maxInlineDim    = 65536
 	maxInlinePixels = 256 * 1024
-	maxInlineData   = 4000 // the scanner reads up to 4096 bytes
+	maxInlineData   = 4096 // "maxInlineImageBytes = 4096 // spec recommendation for inline image data"
+	// Without /L the scanner of the unchanged tree counts the end-of-line
+	// before EI as data and stops one byte early: 4094 bytes is the most it
+	// reads.  See findingNoLength.
+	maxInlineDataNoL = 4094
 )
+
+// findingNoLength: an inline image without /L whose data is 4095 or 4096
+// bytes long (inside the documented 4096-byte limit) is not read back.  The
+// region is generated only once known_findings.json lists the id under
+// "fixed" (or VERIF_IGNORE_FINDINGS is set); until then such data always
+// gets an /L entry and the case is counted as excluded.
+const findingNoLength = "C15-inline-nolength-4095"
+
+var (
+	noLengthOnce     sync.Once
+	noLengthAsserted bool
+)
+
+func assertNoLengthBoundary() bool {
+	noLengthOnce.Do(func() {
+		if os.Getenv("VERIF_IGNORE_FINDINGS") != "" {
+			noLengthAsserted = true
+			return
+		}
+		b, err := os.ReadFile(filepath.Join(vt.Root(), "known_findings.json"))
+		if err != nil {
+			return
+		}
+		var doc struct {
+			Fixed json.RawMessage `json:"fixed"`
+		}
+		if json.Unmarshal(b, &doc) == nil && bytes.Contains(doc.Fixed, []byte(findingNoLength)) {
+			noLengthAsserted = true
+		}
+	})
+	return noLengthAsserted
+}
 
 var asciiFilters = map[string]bool{"ASCIIHexDecode": true, "AHx": true, "ASCII85Decode": true, "A85": true}
 
@@ -345,10 +385,17 @@ var imageDataVocab = [][]byte{[]byte("EI"), []byte("\nEI"), []byte("\nEI "), []b
 
 var bulkAlphabet = []byte("EIEI\n\n\r \t\x00x0%/()<>[]qQ\xff\x80ID")
 
-func drawImageData(t *rapid.T) []byte {
+// boundaryLengths are the data lengths around the limits: 4096 is the most
+// PDF 2.0 and the scanner allow, 4094 the most the scanner reads without /L.
+var boundaryLengths = []int{4093, 4094, 4095, 4096, 4096, 4096}
+
+func drawImageData(t *rapid.T, boundary bool) []byte {
 	var data []byte
-	if rapid.IntRange(0, 24).Draw(t, "bulk") == 0 {
+	if boundary || rapid.IntRange(0, 24).Draw(t, "bulk") == 0 {
 		n := rapid.IntRange(100, maxInlineData).Draw(t, "bulklen")
+		if boundary || rapid.IntRange(0, 3).Draw(t, "edge") == 0 {
+			n = rapid.SampledFrom(boundaryLengths).Draw(t, "edgelen")
+		}
 		r := vt.NewRand(rapid.Uint64().Draw(t, "bulkseed"))
 		binary := rapid.Bool().Draw(t, "binary")
 		data = make([]byte, n)
@@ -387,7 +434,22 @@ func nameO(s string) gen.O  { return gen.O{T: "name", S: gen.Hex(s)} }
 func boolO(b bool) gen.O    { return gen.O{T: "bool", B: b} }
 func realO(f float64) gen.O { return gen.O{T: "real", F: math.Float64bits(f)} }
 
-func drawImage(t *rapid.T) Op {
+func drawImage(t *rapid.T) Op { return drawImageB(t, false) }
+
+// defuse changes data so that it can be framed without /L.
+func defuse(data []byte) []byte {
+	for i := 0; i+2 < len(data); i++ {
+		if (data[i] == '\n' || data[i] == '\r') && data[i+1] == 'E' && data[i+2] == 'I' {
+			if i+3 == len(data) || !isRegular(data[i+3]) {
+				data[i+2] = 'J'
+			}
+		}
+	}
+	return data
+}
+
+// drawImageB draws an inline image; boundary asks for data at the size limits.
+func drawImageB(t *rapid.T, boundary bool) Op {
 	var d []gen.KV
 	seen := map[string]bool{}
 	add := func(k string, v gen.O) {
@@ -484,19 +546,23 @@ func drawImage(t *rapid.T) Op {
 		add(string(key), genImageValue.Draw(t, "val"))
 	}
 
-	data := drawImageData(t)
-	if usesASCIIFilter(d) {
-		for len(data) > 0 && isSpace[data[0]] {
-			data = data[1:]
-		}
+	data := drawImageData(t, boundary)
+	if len(data) >= maxInlineDataNoL-1 && rapid.Bool().Draw(t, "defuse") {
+		data = defuse(data) // a long image which needs no /L
 	}
 	if len(data) == 0 {
 		data = []byte("E")
+	}
+	if usesASCIIFilter(d) && isSpace[data[0]] {
+		data[0] = 'A' // keeps the length
 	}
 	if len(data) > maxInlineData {
 		data = data[:maxInlineData]
 	}
 	withL := rapid.IntRange(0, 3).Draw(t, "withL") == 0
+	if len(data) > maxInlineDataNoL && !assertNoLengthBoundary() {
+		withL = true // region of findingNoLength
+	}
 	if withL || needsLength(data) {
 		add(pick("lkey", "L", "L", "Length"), intO(int64(len(data))))
 	}
@@ -784,6 +850,24 @@ func classify(c *Case) (bool, []string) {
 			if len(data) > 512 {
 				set["inline-data>512"] = true
 			}
+			_, hasL := dictGet(d, "L", "Length")
+			switch n := len(data); {
+			case n == 4096:
+				set["len==4096"] = true
+				if needsLength(data) {
+					set["len==4096-EOL-EI"] = true
+				}
+				if !hasL {
+					set["len==4096-no-L"] = true
+				}
+			case n == 4095:
+				set["len==4095"] = true
+				if !hasL {
+					set["len==4095-no-L"] = true
+				}
+			case n == 4094 && !hasL:
+				set["len==4094-no-L"] = true
+			}
 		default:
 			if _, ok := knownOps[string(op.Name)]; !ok {
 				set["unknown-op"] = true
@@ -856,6 +940,37 @@ var knownOps = func() map[string]bool {
 	return m
 }()
 
+// genImageCase draws short sequences around inline images whose data sits at
+// the size limits (4093-4096 bytes), with and without /L, in one piece and
+// split.
+func genImageCase(t *rapid.T) Case {
+	var c Case
+	n := rapid.IntRange(1, 3).Draw(t, "nops")
+	for i := 0; i < n; i++ {
+		if i == 0 || rapid.Bool().Draw(t, "image") {
+			c.Ops = append(c.Ops, drawImageB(t, true))
+		} else {
+			c.Ops = append(c.Ops, drawOp(t))
+		}
+	}
+	c.Ops = append(c.Ops, Op{Name: gen.Hex(rapid.SampledFrom(tableOps).Draw(t, "op")), Args: drawOperands(t)})
+	if rapid.Bool().Draw(t, "split") {
+		k := rapid.IntRange(1, 2).Draw(t, "ncuts")
+		for range k {
+			c.Cuts = append(c.Cuts, rapid.IntRange(0, len(c.Ops)).Draw(t, "cut"))
+		}
+		sort.Ints(c.Cuts)
+		for range k + 1 {
+			c.Raw = append(c.Raw, rapid.Bool().Draw(t, "raw"))
+		}
+	}
+	if rapid.IntRange(0, 3).Draw(t, "chunked") == 0 {
+		c.Chunk = rapid.SampledFrom([]int{1, 3, 61, 511, 512, 513, 4096}).Draw(t, "chunk")
+	}
+	c.StrictNilDict = !vt.FindingOpen(findingNilDict)
+	return c
+}
+
 var opsProp = &vt.Prop[Case]{
 	Property: propID,
 	Kind:     "c15-ops",
@@ -863,6 +978,13 @@ var opsProp = &vt.Prop[Case]{
 	Check:    checkCase,
 	Classify: classify,
 	Excluded: func(c *Case) []string {
+		if !assertNoLengthBoundary() {
+			for _, op := range c.Ops {
+				if string(op.Name) == nameImage && len(op.Args[1].S) > maxInlineDataNoL {
+					return []string{findingNoLength}
+				}
+			}
+		}
 		if !c.StrictNilDict {
 			for _, op := range c.Ops {
 				for _, a := range op.Args {
@@ -884,4 +1006,16 @@ func init() { vt.Register(opsProp) }
 
 func TestOps(t *testing.T) {
 	opsProp.Run(t, vt.NewStats(propID, "ops"))
+}
+
+// imageProp is opsProp with a generator focused on the inline-image size
+// limits; failures are c15-ops cases.
+var imageProp = func() *vt.Prop[Case] {
+	p := *opsProp
+	p.Gen = genImageCase
+	return &p
+}()
+
+func TestInlineImage(t *testing.T) {
+	imageProp.Run(t, vt.NewStats(propID, "inline-image"))
 }
